@@ -30,7 +30,11 @@ Elem1 == {<<"tuple", <<>>>>, <<"tuple", <<C!At("i1")>>>>, <<"tuple", <<C!At("nan
           <<"frozenset", {}>>, <<"frozenset", {C!At("i1"), C!At("f0")}>>, <<"frozenset", {C!At("nan")}>>, <<"frozenset", {C!At("sa"), C!At("ba")}>>}
 Level2 == C!Tuples(Elem1 \cup {C!At("i1"), C!At("f1"), C!At("nan")}, 2) \cup C!Sets(Elem1 \cup {C!At("i1")}, 2)
 
-Terms == Level0 \cup (IF Depth >= 1 THEN Level1 ELSE {}) \cup (IF Depth >= 2 THEN Level2 ELSE {})
+\* long tuples (size-dependent fast paths): 17 and 40 elements, all 1 except one position that holds 1, True or 1.0
+LongTuples == {<<"tuple", [k \in 1..n |-> IF k = j THEN C!At(a) ELSE C!At("i1")]>> :
+                  n \in {17, 40}, j \in {1, 17}, a \in {"i1", "true", "f1"}}
+
+Terms == LongTuples \cup Level0 \cup (IF Depth >= 1 THEN Level1 ELSE {}) \cup (IF Depth >= 2 THEN Level2 ELSE {})
 
 Init == term \in Terms
 Next == UNCHANGED vars
